@@ -228,6 +228,22 @@ def main():
     ops, verdicts, crashes = run_pipeline(binp, scens, workdir, "main", mutate_per=(0 if args.replay else cfg.get("mutate_per", {}).get(tier, 0)), rng=rng, nouf_bin=nouf_bin)
 
     stats = analyse(pid, cfg, ops, verdicts, known)
+    if cfg.get("dev_families") and not args.replay:
+        # the property does not name a build profile: the recursion-depth families also run on a dev (unoptimised) build
+        rcd, houtd, devbin = runner.harness_build(features_default=True, profile="dev")
+        if rcd == 0:
+            ops_d, verdicts_d, crashes_d = run_pipeline(devbin, cfg["dev_families"](rng, tier), workdir, "dev", rng=rng)
+            st_d = analyse(pid, cfg, ops_d, verdicts_d, known)
+            crashes = crashes + crashes_d
+            for line, v in st_d["oracle_fail_unlisted"][:2]:
+                p = write_replay(workdir, "%s-dev-oracle-%d.json" % (pid, line), {"property": pid, "profile": "dev", "what": "property predicate false on the real crate's output (dev profile build of the harness)", "verdict": strip(v), "ops": scenario_of(ops_d, line)})
+                violations.append((p, ""))
+            stats["evaluations"] += st_d["evaluations"]
+            stats["oracle_true"] += st_d["oracle_true"]
+            stats["kinds"].update({"dev:" + k: v for k, v in st_d["kinds"].items()})
+            notes.append("dev-profile run: %d cases, %d oracle failures" % (st_d["evaluations"], len(st_d["oracle_fail_unlisted"])))
+        else:
+            notes.append("dev-profile harness build failed")
     # ---- verdict
     for line, v in stats["oracle_fail_unlisted"][:3]:
         p = write_replay(workdir, "%s-oracle-%d.json" % (pid, line), {"property": pid, "what": "property predicate false on the real crate's output", "verdict": strip(v), "ops": scenario_of(ops, line)})
@@ -257,7 +273,7 @@ def main():
                 os.makedirs(os.path.dirname(wpath), exist_ok=True)
                 sc = [dict((kk, vv) for kk, vv in o.items() if kk != "sid") for o in scenario_of(ops, best)]
                 json.dump({"finding": k["id"], "ops": sc}, open(wpath, "w"), indent=1)
-    for k in known:
+    for k in ([] if args.replay else known):
         ok = stats["known_seen"].get(k["id"], 0)
         if ok:
             print("KNOWN-FINDING: property=%s %s" % (pid, k["what"]))
